@@ -140,7 +140,13 @@ func supervise(args []string) int {
 	cmd := exec.Command(self, cmdArgs...)
 	cmd.Stdout = os.Stdout
 	cmd.Stderr = ef
-	cmd.Env = append(os.Environ(), "VERIF_PROGRESS="+progress)
+	scratch, err := os.MkdirTemp(vf.ScratchBase(), "verif-"+id+"-")
+	if err != nil {
+		fmt.Fprintln(os.Stderr, err)
+		return 3
+	}
+	defer os.RemoveAll(scratch)
+	cmd.Env = append(os.Environ(), "VERIF_PROGRESS="+progress, "VERIF_SCRATCH_DIR="+scratch)
 	cmd.SysProcAttr = &syscall.SysProcAttr{Setpgid: true}
 	budget := 40 * time.Minute
 	if tier == "thorough" {
@@ -185,8 +191,8 @@ func supervise(args []string) int {
 			code = 3
 		}
 	}
-	if !timedOut && (code == 0 || code == 1 || code == 2) {
-		return code
+	if done, err := os.ReadFile(progress + ".done"); !timedOut && err == nil && string(done) == fmt.Sprint(code) {
+		return code // the check ran to its end and this is its verdict
 	}
 	last := ""
 	if b, err := os.ReadFile(progress); err == nil {
@@ -201,6 +207,7 @@ func supervise(args []string) int {
 	if len(tail) > 60000 {
 		tail = tail[:30000] + "\n…\n" + tail[len(tail)-30000:]
 	}
+	os.Unsetenv("VERIF_SCRATCH_DIR")
 	r := vf.NewRun(id, tier, seed(), only, props[id].level)
 	r.Rule("the check process died; no coverage was recorded")
 	r.Eval(0)
